@@ -103,7 +103,10 @@ MinNext(s, x) ==
         mi == IF FLt(x, At(dq, s.min_index)) THEN s.cur_index
               ELSE IF s.min_index = s.cur_index THEN FindMin(dq) ELSE s.min_index
     IN R([s EXCEPT !.deque = dq, !.min_index = mi, !.cur_index = Adv(s.cur_index, s.period)], At(dq, mi))
-MinReset(s) == [s EXCEPT !.deque = Rep(s.period, PINF)]       \* min_index, cur_index left as they are
+MinReset(s) == [s EXCEPT !.min_index = 0, !.cur_index = 0, !.deque = Rep(s.period, PINF)]
+\* the reset as found before the repair of the stale-cursor defect (kept for the spec self-test, which must
+\* find a behaviour on which this variant and a fresh instance differ once a NaN is fed after reset)
+MinResetAsFound(s) == [s EXCEPT !.deque = Rep(s.period, PINF)]
 
 (* Maximum *)
 MaxInit(n) == [period |-> n, max_index |-> 0, cur_index |-> 0, deque |-> Rep(n, NINF)]
@@ -116,7 +119,7 @@ MaxNext(s, x) ==
         mi == IF FGt(x, At(dq, s.max_index)) THEN s.cur_index
               ELSE IF s.max_index = s.cur_index THEN FindMax(dq) ELSE s.max_index
     IN R([s EXCEPT !.deque = dq, !.max_index = mi, !.cur_index = Adv(s.cur_index, s.period)], At(dq, mi))
-MaxReset(s) == [s EXCEPT !.deque = Rep(s.period, NINF)]
+MaxReset(s) == [s EXCEPT !.max_index = 0, !.cur_index = 0, !.deque = Rep(s.period, NINF)]
 
 (* ExponentialMovingAverage: k = 2 / (period + 1) *)
 EmaIInit(n) == [period |-> n, k |-> Norm(2, n + 1), current |-> RZero, is_new |-> TRUE]
